@@ -1,7 +1,11 @@
 (* C20 model driver.  One case per line = the event list recorded on the real run
-     N vs va ; C h ; R h vs va ; S h ; = hd hs ; X h ; A h n grow ; D h b n shrink
+     N vs va ; C h ; M h ; R h vs va ; S h ; = hd hs ; X h ; A h n grow ; D h b n shrink ; F h n grow
+   (M = construction from an rvalue allocator, F = allocate in which the base allocator threw)
    output: for every event what the extracted Coq model (PoolAlloc.step / proto_ok / h_ok / routed_ok) says:
-     <dest> <refs count bs al | dead> <allocs> <frees> <h_ok> <routed_ok> <proto_ok>
+     <dest> <refs count bs al cached | dead> <allocs> <frees> <h_ok> <routed_ok> <proto_ok>
+   A line "retarget s1 a1 k s2 a2" asks for the state of a pool of (s1,a1) after k allocations and k
+   deallocations and then for the state after line 119 re-targets it to (s2,a2) (= OpAllocFail with no buffer
+   obtained): cached_before count bs al cached_after 1.
    in exactly the format the harness prints its observations.
    The only glue: decimal I/O, unary nat <-> int, and re-tabulating the model's finite maps (functions
    nat -> _) into arrays every few steps so that look-ups stay cheap (extensionally the identity). *)
@@ -24,7 +28,8 @@ let tabulate (f : nat -> 'a) (n : nat) : nat -> 'a =
 let compact (st : state) : state =
   { pools = tabulate st.pools st.npools; npools = st.npools;
     handles = tabulate st.handles st.nhandles; nhandles = st.nhandles;
-    blocks = tabulate st.blocks st.nblocks; nblocks = st.nblocks }
+    blocks = tabulate st.blocks st.nblocks; nblocks = st.nblocks;
+    cached = tabulate st.cached st.npools }
 
 let tag_str = function
   | None -> "-"
@@ -38,6 +43,8 @@ let parse_event toks : op option =
   match toks with
   | ["N"; vs; va] -> Some (OpNew { vsize = z_of_string vs; valign = z_of_string va })
   | ["C"; h] -> Some (OpCopy (n h))
+  | ["M"; h] -> Some (OpMove (n h))
+  | ["F"; h; cnt; grow] -> Some (OpAllocFail (n h, z_of_string cnt, n grow))
   | ["R"; h; vs; va] -> Some (OpRebind (n h, { vsize = z_of_string vs; valign = z_of_string va }))
   | ["S"; h] -> Some (OpSocc (n h))
   | ["="; hd; hs] -> Some (OpAssign (n hd, n hs))
@@ -50,7 +57,29 @@ let split_events line =
   let parts = String.split_on_char ';' line in
   Stdlib.List.filter (fun l -> l <> []) (Stdlib.List.map words parts)
 
+let run_ops st ops = Stdlib.List.fold_left (fun st o -> match st with
+  | None -> None
+  | Some s -> (match step s o with Ok (s', _) -> Some s' | _ -> None)) (Some st) ops
+
+let retarget s1 a1 k s2 a2 =
+  let vt1 = { vsize = z_of_string s1; valign = z_of_string a1 } and vt2 = { vsize = z_of_string s2; valign = z_of_string a2 } in
+  let k = int_of_string k in
+  let allocs = Stdlib.List.init k (fun _ -> OpAlloc (O, z_of_int 1, nat 1)) in
+  let deallocs = Stdlib.List.init k (fun i -> OpDealloc (O, nat i, z_of_int 1, O)) in
+  match run_ops init ([OpNew vt1] @ allocs @ deallocs @ [OpRebind (O, vt2)]) with
+  | None -> "STUCK"
+  | Some st ->
+    let before = int (st.cached O) in
+    (match step st (OpAllocFail (nat 1, z_of_int 1, O)) with
+     | Ok (st', _) ->
+       let p = st'.pools O in
+       Printf.sprintf "%d %d %s %s %d 1" before (int p.pcount) (string_of_z (fst p.pparams)) (string_of_z (snd p.pparams)) (int (st'.cached O))
+     | _ -> "STUCK")
+
 let () = iter_lines (fun line ->
+  match words line with
+  | ["retarget"; s1; a1; k; s2; a2] -> print_endline (retarget s1 a1 k s2 a2)
+  | _ ->
   let evs = split_events line in
   let st = ref init in
   let stuck = ref false in
@@ -60,16 +89,19 @@ let () = iter_lines (fun line ->
     match parse_event toks with
     | None -> "?"
     | Some o ->
-      let pr = proto_ok !st o and hk = h_ok !st o in
+      let pr = proto_ok !st o in
+      let hk = (match o with OpAllocFail (h, cnt, _) -> h_ok !st (OpAlloc (h, cnt, O)) | _ -> h_ok !st o) in
+      let is_fail = (match o with OpAllocFail _ -> true | _ -> false) in
       (match step !st o with
        | Ok (st', ob) ->
          incr k;
          st := if !k land 7 = 0 then compact st' else st';
          let p = (!st).pools ob.o_pool in
          let ps = if p.palive then
-             Printf.sprintf "%d %d %s %s" (int p.prefs) (int p.pcount) (string_of_z (fst p.pparams)) (string_of_z (snd p.pparams))
+             Printf.sprintf "%d %d %s %s %d" (int p.prefs) (int p.pcount) (string_of_z (fst p.pparams)) (string_of_z (snd p.pparams))
+               (int ((!st).cached ob.o_pool))
            else "dead" in
-         Printf.sprintf "%s %s %d %d %s %s %s" (tag_str ob.o_dest) ps (int ob.o_allocs) (int ob.o_frees)
+         Printf.sprintf "%s %s %d %d %s %s %s" (if is_fail then "E" else tag_str ob.o_dest) ps (int ob.o_allocs) (int ob.o_frees)
            (b01 hk) (b01 (routed_ok ob)) (b01 pr)
        | _ -> stuck := true; "STUCK")) evs in
   print_endline (String.concat " ; " out))
